@@ -90,6 +90,19 @@ def roundtrip(spec):
         raise Violation('C01:reencode-bytes:%s' % name,
                         '%s: decode(b).encode() != b (%d vs %d bytes)' % (name, len(raw2), len(raw)),
                         case)
+    # decode() is a function of the bytes: whatever the caller did to an object decoded earlier, decoding the
+    # same bytes again yields the same PDU
+    g.scramble(back)
+    try:
+        again = cls.decode(raw)
+    except Exception as exc:
+        raise Violation('C01:decode-again:%s:%s' % (name, lib_frame(exc)),
+                        'second %s.decode() of the same bytes raised %r' % (name, exc), case)
+    d = deep_diff(obj, again)
+    if d:
+        raise Violation('C01:decode-history:%s:%s' % (name, generalise(d)),
+                        '%s: a second decode of the same bytes differs at %s after the first decoded object was '
+                        'modified by its owner' % (name, d), case)
     return raw
 
 
